@@ -294,6 +294,26 @@ func nativeByPattern(name string) nativeFn {
 		return nativeSlicesSort
 	case strings.HasPrefix(name, "slices.Contains["):
 		return nativeSlicesContains
+	case strings.HasPrefix(name, "github.com/VolumeFi/whoops.Must["):
+		// whoops.Must(v, err): v when err == nil, panics otherwise (the panic ends the path)
+		return func(x *Exec, st *State, fr *Frame, at ssa.Instruction, a []Val) (Val, bool) {
+			if len(a) != 2 || a[1].T.Sort != SIface {
+				return Val{}, false
+			}
+			x.safety(st, fr, at, "whoops.Must", Eq(a[1].T, TINil))
+			st.assume(Eq(a[1].T, TINil))
+			return a[0], true
+		}
+	}
+	if name == "github.com/VolumeFi/whoops.Assert" {
+		return func(x *Exec, st *State, fr *Frame, at ssa.Instruction, a []Val) (Val, bool) {
+			if len(a) != 1 || a[0].T.Sort != SIface {
+				return Val{}, false
+			}
+			x.safety(st, fr, at, "whoops.Assert", Eq(a[0].T, TINil))
+			st.assume(Eq(a[0].T, TINil))
+			return Val{T: Term{"unit", SUnit}}, true
+		}
 	}
 	return nil
 }
